@@ -89,6 +89,14 @@ def make_obj(spec):
         return ["line %d\n" % (i % 7) for i in range(spec[1])]
     if kind == "str":
         return "ab" * spec[1]
+    if kind == "utf8":          # large non-ASCII str: >= 64 KiB once encoded, so pickle writes it outside its frames
+        import random
+        if spec[1] == "mixed":
+            r = random.Random(spec[3])
+            text = "".join(r.choice("ab \u00e9\u00fc\u20ac\u6f22\U0001d11e") for _ in range(spec[2]))
+        else:
+            text = spec[1] * spec[2]
+        return {"id": 14, "text": text, "tail": [1, 2, 3]}
     if kind == "np":            # needs numpy: only in the python3-vt workers
         import numpy as np
         a = (np.arange(spec[2], dtype=spec[1]) * 3 + spec[3]).reshape(-1, 1 if spec[2] % 2 else 2) if spec[2] else np.zeros(0, dtype=spec[1])
@@ -228,7 +236,8 @@ class Worker:
         self.proc = subprocess.Popen(
             [self.py, str(self.script), str(core.REPO), str(d), str(CAP_MB), str(BLOWUP_KB),
              "np" if self.py == core.PY_NUMPY else "plain"],
-            stdin=subprocess.PIPE, stdout=subprocess.PIPE, stderr=subprocess.DEVNULL, bufsize=0, env=env, cwd=str(d))
+            stdin=subprocess.PIPE, stdout=subprocess.PIPE, stderr=open(d / "stderr.log", "wb"), bufsize=0, env=env, cwd=str(d))
+        self.errlog = d / "stderr.log"
         self.buf = b""
 
     def stop(self):
@@ -241,7 +250,17 @@ class Worker:
             self.proc = None
 
     def ask(self, item, watchdog):
-        """Returns (reply dict, seconds)."""
+        """Returns (reply dict, seconds). A worker that exits on its own (rc >= 0) without answering is an
+        infrastructure problem, not an outcome: the case is retried once on a fresh worker."""
+        rep, secs = self._ask(item, watchdog)
+        if rep.get("cls") == "infra" and rep.get("died"):
+            rep2, secs2 = self._ask(item, watchdog)
+            if rep2.get("cls") == "infra":
+                rep2["detail"] = "%s | first attempt: %s" % (rep2.get("detail"), rep.get("detail"))
+            return rep2, secs + secs2
+        return rep, secs
+
+    def _ask(self, item, watchdog):
         if self.proc is None or self.proc.poll() is not None:
             self.stop()
             self.start()
@@ -267,8 +286,13 @@ class Worker:
                 rc = self.proc.wait()
                 self.proc = None
                 # killed by the kernel (OOM / SIGKILL / SIGSEGV under the cap) while handling this case
-                return dict(id=item["id"], cls="hang" if rc < 0 else "infra",
-                            detail=f"worker died rc={rc} while handling the case"), time.time() - t0
+                tail = ""
+                try:
+                    tail = self.errlog.read_bytes()[-400:].decode("utf-8", "replace")
+                except OSError:
+                    pass
+                return dict(id=item["id"], cls="hang" if rc < 0 else "infra", died=True,
+                            detail=f"worker died rc={rc} while handling the case; stderr: {tail!r}"), time.time() - t0
             self.buf += chunk
         line, self.buf = self.buf.split(b"\n", 1)
         rep = json.loads(line)
@@ -384,10 +408,88 @@ def build_files_np(ctx, triples):
     return out
 
 
+def _decoded_len(f, k):
+    """Length of the pickle stream a reader gets out of the first k bytes of the file (None: CPython codec)."""
+    if f["comp"] == "none":
+        return k
+    if f["comp"] in ("zlib", "gzip"):
+        d = zlib.decompressobj(zlib.MAX_WBITS if f["comp"] == "zlib" else 31)
+        try:
+            return len(d.decompress(f["bytes"][:k]))
+        except zlib.error:
+            return None
+    return None
+
+
+def utf8_cuts(rng, f, thorough):
+    """Truncation points whose decoded stream ends INSIDE the big string, at every alignment: in the middle of
+    a multi-byte character (tag mid-char) and on a character boundary (tag char-boundary)."""
+    text = _make_obj(tuple(f["spec"]))["text"].encode("utf-8")
+    start = f["payload"].find(text)
+    if start < 0:
+        raise core.InfraError("utf8 object: encoded string not found in the pickle stream")
+    end = start + len(text)
+    R, want = f["R"], (24 if thorough else 10)
+    cand = []
+    if f["comp"] == "none":
+        for _ in range(3):  # runs of consecutive offsets: every alignment of 1..4-byte characters
+            a = rng.randrange(start + 1, end - 16)
+            cand += list(range(a, a + 12))
+        cand += [start, start + 1, start + 2, end - 1, end - 2, end - 3]
+    cand += [rng.randrange(1, R) for _ in range(400)]
+    mid, bnd = [], []
+    for k in cand:
+        d = _decoded_len(f, k)
+        if d is None:
+            if len(bnd) < want:
+                bnd.append(["cut", k, "in-codec"])
+            continue
+        if start < d < end:
+            if f["payload"][d] & 0xC0 == 0x80:
+                if len(mid) < want * 2:
+                    mid.append(["cut", k, "mid-char"])
+            elif len(bnd) < want:
+                bnd.append(["cut", k, "char-boundary"])
+        if len(mid) >= want * 2 and len(bnd) >= want:
+            break
+    return mid + bnd
+
+
+def find_aligned(ctx, joblib, comp, level, residue, blocks, seed):
+    """A file of incompressible data whose length is blocks*8192 + residue (mod 8192 = residue)."""
+    import io
+
+    target = blocks * 8192 + residue
+    n = max(16, target - 120)
+    seen = set()
+    for _ in range(40):
+        if n in seen:
+            n += 1
+            continue
+        seen.add(n)
+        b = io.BytesIO()
+        joblib.dump(_make_obj(("rand", n, seed)), b, compress=(comp, level))
+        R = len(b.getvalue())
+        if R == target:
+            f = build_file(ctx, joblib, ("rand", n, seed), comp, level)
+            f["family"], f["residue"] = "aligned", residue
+            return f
+        n = max(16, n + (target - R))
+    raise core.InfraError(f"no payload length gives a {comp} file of {target} bytes")
+
+
 def damages_for(rng, f, thorough, exhaustive_limit):
     R = f["R"]
     out = []
-    if R <= exhaustive_limit:
+    fam = f.get("family")
+    if fam == "aligned":
+        # the compressed stream ends `residue` bytes after a raw-block boundary: the last 8192-byte block holds
+        # (part of) the checksum trailer only, i.e. a decompress() call that returns no data
+        cand = {0, 1, R // 2, rng.randrange(R), rng.randrange(R)} | {R - i for i in range(1, 14)}
+        for k in range(1, R // 8192 + 2):
+            cand |= {8192 * k - 2, 8192 * k - 1, 8192 * k, 8192 * k + 1, 8192 * k + 2}
+        cuts = sorted(c for c in cand if 0 <= c < R)
+    elif R <= exhaustive_limit:
         cuts = list(range(R))
     else:
         cand = {0, 1, 2, 3, 4, 5, 6, 9, 10, 11, R - 1, R - 2, R - 3, R - 4, R - 5, R - 8, R - 9, R - 12, R // 2, R // 3}
@@ -397,6 +499,8 @@ def damages_for(rng, f, thorough, exhaustive_limit):
             cand.add(rng.randrange(R))
         cuts = sorted(c for c in cand if 0 <= c < R)
     out += [["cut", k] for k in cuts]
+    if fam == "utf8":
+        out += utf8_cuts(rng, f, thorough)
     sufs = [("X", b"X"), ("zero1", b"\0"), ("zero5", b"\0" * 5), ("rand3", rng.randbytes(3)), ("rand16", rng.randbytes(16)),
             ("second-stream", f["bytes"])]
     to_block = (-R) % 8192
@@ -474,6 +578,20 @@ def file_plan(ctx, salt):
         for comp in COMPRESSORS:
             lv = (rng.choice([1, 3, 6, 9]) if comp in ("zlib", "gzip", "bz2") else 3) if comp != "none" else 0
             plan.append((spec, comp, lv))
+    # large non-ASCII strings (written outside the pickle frames): a cut can split a multi-byte character
+    u8 = [("utf8", "mixed", 40000, rng.randrange(1000)), ("utf8", "\u00e9", 40000, 0)]
+    if ctx.thorough:
+        u8 += [("utf8", "\u6f22", 30000, 0), ("utf8", "\U0001d11e", 20000, 0), ("utf8", "mixed", 120000, 7)]
+    for spec in u8:
+        for comp in (COMPRESSORS if ctx.thorough else ("none", "zlib", "gzip")):
+            if spec[1] != "mixed" and comp != "none" and not ctx.thorough:
+                continue  # a repeated character compresses to a few hundred bytes: nothing to cut inside
+            plan.append((spec, comp, 3 if comp != "none" else 0))
+    # block-boundary-aligned zlib/gzip files: the stream ends 0..9 bytes after (or 1 byte before) a raw-block boundary
+    for comp in ("zlib", "gzip"):
+        for residue in (0, 1, 2, 3, 4, 5, 6, 7, 8, 9, 8191):
+            blocks = (rng.choice([1, 1, 2]) if not ctx.thorough else rng.choice([1, 2, 3, 5])) - (1 if residue == 8191 else 0)
+            plan.append((("align", residue, max(blocks, 0 if residue == 8191 else 1), rng.randrange(1000)), comp, rng.choice([1, 3, 6, 9])))
     # numpy arrays: the array bytes sit inside the stream and are fetched with `_read_bytes`
     nps = [("np", "int64", 9, 1), ("np", "float64", 3000, 2)]
     if ctx.thorough:
@@ -498,7 +616,7 @@ def _explore(ctx, salt, plan=None, only=None, budget_scale=1):
     res = Result()
     res.rule = ("one evaluation = one damaged file loaded through one route in a watched subprocess; files: every compressor "
                 "(zlib gzip bz2 lzma xz none) x small objects (every truncation length) and multi-block objects (boundary-biased "
-                "lengths), garbage/zero/second-stream suffixes; non-trivial = the damaged file differs from the valid one and is "
+                "lengths), zlib/gzip files whose length is 0..9 or 8191 mod 8192 (the last raw block holds only checksum-trailer bytes), large non-ASCII strings cut in the middle of a multi-byte character, numpy arrays, garbage/zero/second-stream suffixes; non-trivial = the damaged file differs from the valid one and is "
                 "non-empty; distinct by (object, compressor, level, damage, route)")
     rng = ctx.rng(salt)
     watchdog = 60 if ctx.thorough else 20
@@ -506,9 +624,16 @@ def _explore(ctx, salt, plan=None, only=None, budget_scale=1):
     plan = plan if plan is not None else file_plan(ctx, salt)
     (ctx.scratch / "c14_worker.py").write_text(WORKER_SRC)
     for spec, comp, level in plan:
-        if spec[0] != "np":
+        if spec[0] == "align":
+            files.append(find_aligned(ctx, joblib, comp, level, spec[1], spec[2], spec[3]))
+        elif spec[0] != "np":
             files.append(build_file(ctx, joblib, tuple(spec), comp, level))
+            if spec[0] == "utf8":
+                files[-1]["family"] = "utf8"
     files += build_files_np(ctx, [t for t in plan if t[0][0] == "np"])
+    for f in files:
+        if f.get("family") == "aligned":
+            res.count("aligned: file length mod 8192 = %d" % f["residue"])
     # smallest, most telling cases first: they become the replay of a finding
     order = []
     for f in files:
@@ -585,6 +710,8 @@ def _explore(ctx, salt, plan=None, only=None, budget_scale=1):
         res.count(f"comp={f['comp']}")
         res.count(f"route={route}")
         res.count(f"damage={kind}")
+        if dmg[0] == "cut" and len(dmg) > 2:
+            res.count("utf8-cut=" + dmg[2])
         res.count("size=" + ("small" if f["R"] <= 400 else "multi-block" if f["R"] > 8192 else "one-block"))
         res.count(f"impl={rep['cls']}" + (":" + rep.get("exc", "") if rep["cls"] == "raises" else ""))
         if rep["cls"] != "hang":
